@@ -134,12 +134,16 @@ def leaf_tasks():
     def muldiv_args(fb):
         n0 = T.var('n0', 0, 2**128 - 1); n1 = T.var('n1', 0, 2**128 - 1); d = T.var('d', 0, 2**128 - 1)
         return [I(n0, 'u128'), I(n1, 'u128'), I(d, 'u128'), B(fb)], [n0, n1, d, fb]
+    def mulshift_args(fb):
+        n0 = T.var('n0', 0, 2**128 - 1); n1 = T.var('n1', 0, 2**128 - 1)
+        return [I(n0, 'u128'), I(n1, 'u128'), B(fb)], [n0, n1, fb]
     return [
         ('leaf:delta_a', leaf_task('token_math::try_get_amount_delta_a', SP.spec_try_delta_a, delta_args, (True, False))),
         ('leaf:delta_b', leaf_task('token_math::try_get_amount_delta_b', SP.spec_try_delta_b, delta_args, (True, False))),
         ('leaf:next_a', leaf_task('get_next_sqrt_price_from_a_round_up', SP.spec_next_price_from_a, price_args, (True, False))),
         ('leaf:next_b', leaf_task('get_next_sqrt_price_from_b_round_down', SP.spec_next_price_from_b, price_args, (True, False))),
         ('leaf:mul_div', leaf_task('checked_mul_div_round_up_if', SP.spec_mul_div_round_up_if, muldiv_args, (True, False))),
+        ('leaf:mul_shift_right', leaf_task('checked_mul_shift_right_round_up_if', SP.spec_mul_shift_right_round_up_if, mulshift_args, (True, False))),
     ]
 
 
